@@ -383,7 +383,7 @@ pub fn main(env: &Env) -> i32 {
     let corpus = gen::corpus(thorough);
     let uni = UniCfg { lines_full: !thorough, cap: if thorough { 2500 } else { 4000 }, compound: true };
     rep.rule = format!(
-        "{} seeded histories, each over 1..3 generated mappings (0..{} classes x 0..{} members) with 6..18 deploy/write/read events plus a final audit that writes every mapping with both releases and reads it with the other one; {} corpus files likewise, plus huge generated mappings (> 65 536 classes and members; 1 in quick, 3 in thorough; 40 000 sampled queries each). \
+        "{} seeded histories, each over 1..3 generated mappings (0..{} classes x 0..{} members) with 6..18 deploy/write/read events plus a final audit that writes every mapping with both releases and reads it with the other one; {} corpus files likewise, plus huge generated mappings (> 65 536 classes and members; 40 000 sampled queries each) and one mapping whose single lookups match 5 000 entries (deep inline chain, overloads). \
          Every cross-release read compares the full query universe of the mapping (all names + near misses x lines 0..66, range boundaries +-1, the same shifted by multiples of 2^32, extremes; throwables, text and typed traces in usual and unusual shapes, signatures; cap {} per mapping). \
          distinct_nontrivial = sum over distinct mappings of 2 x (queries in its universe) = distinct (writer release, file, query) comparisons.",
         n,
@@ -392,13 +392,14 @@ pub fn main(env: &Env) -> i32 {
         corpus.len(),
         uni.cap
     );
-    let n_huge = if thorough { 3 } else { 1 };
+    let n_huge = if thorough { 3 } else { 2 };
     let n_total = n + corpus.len() as u64 + n_huge;
     let (st, mut vs) = run_indexed(n_total, env.workers, 1, |i, st, vs| {
         let mut rng = Rng::new(run_seed(seed, "C10", i));
         if i >= n + corpus.len() as u64 {
-            // scale: > 65 536 classes and members in one file
-            let m = gen::gen_huge(&mut rng);
+            // scale: > 65 536 classes and members in one file; the last one instead has single lookups
+            // that match > 4096 entries (a deep inline chain, thousands of overloads)
+            let m = if i + 1 == n_total && n_huge > 1 || (n_huge == 1 && false) { gen::gen_deep(5000) } else { gen::gen_huge(&mut rng) };
             let big = UniCfg { lines_full: false, cap: 40_000, compound: true };
             simulate_history(i, &mut rng, &[m], &big, st, vs, false);
         } else if i < n {
